@@ -46,3 +46,36 @@ Theorem C01_transformation_sound : forall P n (xs : list XF) (dx : list Extended
     Xderive_pt (fun t => nth k (eval_ext P (map (fun f : XF => f t) xs)) Xnan) t0 (getb tv (snd (nth k mf (0, 0)))).
 Proof. exact tan_prog_sound. Qed.
 Print Assumptions C01_transformation_sound.
+
+(** ** Caloric properties of the State layer (properties.rs).
+    The Jacobian rule: for functions f, g, h of (T, V) (fixed composition) and any curve on which g is constant and which is
+    parametrised by h, d f / d h along the curve is (f_T g_V - f_V g_T)/(h_T g_V - h_V g_T). *)
+From Coquelicot Require Import Coquelicot.
+From FeosVerif Require Import CaloricC01.
+Local Open Scope R_scope.
+Theorem C01_jacobian_rule : forall (f g h : R -> R -> R) (Tc Vc : R -> R) (s0 fT fV gT gV hT hV dT dV : R),
+  differentiable_pt_lim f (Tc s0) (Vc s0) fT fV -> differentiable_pt_lim g (Tc s0) (Vc s0) gT gV ->
+  differentiable_pt_lim h (Tc s0) (Vc s0) hT hV -> derivable_pt_lim Tc s0 dT -> derivable_pt_lim Vc s0 dV ->
+  forall delta, 0 < delta ->
+  (forall s, Rabs (s - s0) < delta -> g (Tc s) (Vc s) = g (Tc s0) (Vc s0)) ->
+  (forall s, Rabs (s - s0) < delta -> h (Tc s) (Vc s) = s) ->
+  hT * gV - hV * gT <> 0 ->
+  derivable_pt_lim (fun s => f (Tc s) (Vc s)) s0 ((fT * gV - fV * gT) / (hT * gV - hV * gT)).
+Proof. exact jacobian_rule. Qed.
+Print Assumptions C01_jacobian_rule.
+
+(** The expressions the getters evaluate (m_*, in terms of T, V, n and the second derivatives att, atv, avv of the total Helmholtz
+    energy — the objects of C01_directional_derivative) ARE those Jacobian quotients with p = -A_V, S = -A_T, U = A + T S,
+    H = U + p V:  c_p = T (dS/dT)_p / n,  Joule-Thomson = (dT/dp)_H,  kappa_S = -(dV/dp)_S / V,  kappa_H = -(dV/dp)_H / V,
+    alpha = (dV/dT)_p / V,  Grueneisen = V (dp/dU)_V,  and rho_mass w^2 = 1/kappa_S = -V (dp/dV)_S. *)
+Theorem C01_caloric_getters_are_jacobians : forall T V n att atv avv, 0 < T -> 0 < V -> 0 < n ->
+  p_V avv <> 0 -> S_T att <> 0 -> S_T att - p_T atv ^ 2 / p_V avv <> 0 ->
+  m_cp T n att atv avv = T * ((S_T att * p_V avv - S_V atv * p_T atv) / (1 * p_V avv - 0 * p_T atv)) / n /\
+  m_joule_thomson T V n att atv avv = (1 * H_V T V atv avv - 0 * H_T T V att atv) / (p_T atv * H_V T V atv avv - p_V avv * H_T T V att atv) /\
+  m_isentropic_compressibility T V n att atv avv = - (1 / V) * ((0 * S_V atv - 1 * S_T att) / (p_T atv * S_V atv - p_V avv * S_T att)) /\
+  m_isenthalpic_compressibility T V n att atv avv = - (1 / V) * ((0 * H_V T V atv avv - 1 * H_T T V att atv) / (p_T atv * H_V T V atv avv - p_V avv * H_T T V att atv)) /\
+  m_thermal_expansivity V atv avv = (1 / V) * ((0 * p_V avv - 1 * p_T atv) / (1 * p_V avv - 0 * p_T atv)) /\
+  m_grueneisen T V n att atv = V * ((p_T atv * 1 - p_V avv * 0) / (C_v T att * 1 - U_V T atv * 0)) /\
+  1 / m_isentropic_compressibility T V n att atv avv = - V * ((p_T atv * S_V atv - p_V avv * S_T att) / (0 * S_V atv - 1 * S_T att)).
+Proof. exact caloric_getters_are_jacobians. Qed.
+Print Assumptions C01_caloric_getters_are_jacobians.
